@@ -117,7 +117,58 @@ def strategy(tier):
         'share_ops': st.one_of(st.just([]), st.lists(st.lists(st.integers(0, 7), min_size=6, max_size=6), max_size=3)),
         'share_children': st.one_of(st.just([]), st.lists(st.lists(st.integers(0, 7), min_size=3, max_size=3), max_size=2)),
         'share_options': st.booleans(),
+        # about 1 case in 8: one string-carrying field (system / operator / function name, option name, string option
+        # value or string array item) replaced by a string of a boundary length built by repeating a short unit
+        'long': st.tuples(st.integers(0, 7), st.fixed_dictionaries({
+            'unit': st.text('abXY01_', min_size=1, max_size=3), 'len': st.sampled_from(LONG_LENGTHS),
+            'slot': st.integers(0, 60),
+        })).map(lambda t: t[1] if t[0] == 7 else None),
     })
+
+
+# String-length boundaries: block sizes a reader might use (128, 256, 1024, 4096) +-1, and one beyond 16 bits.
+LONG_LENGTHS = [127, 128, 129, 255, 256, 257, 1023, 1024, 1025, 4095, 4096, 4097, 65537, 70001]
+
+
+def strlen_class(n):
+    for lo, hi in ((127, 129), (255, 257), (1023, 1025), (4095, 4097)):
+        if lo <= n <= hi:
+            return f'strlen:{lo}-{hi}'
+    return 'strlen:>65536' if n > 65536 else 'strlen:other'
+
+
+def apply_long(desc):
+    """(descriptor without 'long', label of the field that was lengthened or None)."""
+    import json
+    long = desc.get('long')
+    d = {k: v for k, v in desc.items() if k != 'long'}
+    if not long:
+        return d, None
+    d = json.loads(json.dumps(d))
+    slots = []
+
+    def opts(lst, where):
+        for o in lst:
+            slots.append((o, 'name', where + ':option_name'))
+            if o['type'] == 'string':
+                if o['array']:
+                    slots.extend((o['value'], i, where + ':string_array_item') for i in range(len(o['value'])))
+                else:
+                    slots.append((o, 'value', where + ':string_value'))
+    for sy in d['systems']:
+        slots.append((sy, 'name', 'system:name'))
+        opts(sy['options'], 'system')
+        for c in CATEGORIES:
+            for op in sy[c]:
+                slots.append((op, 'name', 'operator:name'))
+                slots.append((op, 'function', 'operator:function'))
+                opts(op['options'], 'operator')
+    if not slots:
+        return d, None
+    box, key, what = slots[long['slot'] % len(slots)]
+    unit = long['unit']
+    box[key] = (unit * (long['len'] // len(unit) + 1))[:long['len']]
+    return d, what
 
 
 def share_plan(desc):
@@ -493,7 +544,9 @@ def execute(desc, ctx):
         return execute_file(desc, ctx)
     from srctools.dmx import Element
     from srctools.particles import Particle
-    orig = desc
+    orig, lengthened = apply_long(desc)
+    if lengthened:
+        ctx.label(strlen_class(desc['long']['len']), 'strlen:' + lengthened)
     desc, op_inserts, child_appends = share_plan(orig)
     classify(desc, ctx)
     if op_inserts:
@@ -639,9 +692,34 @@ def fixed(tier):
         }
 
 
+def fixed_long(tier):
+    cats = {c: [] for c in CATEGORIES}
+    for i, length in enumerate(LONG_LENGTHS):
+        op = {'name': 'op', 'function': 'fn', 'options': [
+            {'name': 'path', 'type': 'string', 'array': False, 'value': 'x'},
+            {'name': 'paths', 'type': 'string', 'array': True, 'value': ['a', 'b']},
+        ]}
+        # slots: 0 system name, 1 operator name, 2 function, 3 option name, 4 string value, 5 option name, 6/7 array items
+        for slot in ((i % 3), 3 + (i % 2) * 2, 4, 6 + i % 2):
+            yield {
+                'systems': [{'name': 'sys', 'options': [], 'children': [], **{**cats, 'operators': [op]}},
+                            {'name': 'kid', 'options': [], 'children': [0], **cats}],
+                'drive': 'list', 'forward': False, 'fmt_ver': 1 + i % 2, 'direct_io': slot % 2 == 0,
+                'long': {'unit': 'aB_', 'len': length, 'slot': slot},
+            }
+
+
+def fixed_all(tier):
+    yield from fixed(tier)
+    yield from fixed_long(tier)
+
+
 SUBS = [
-    Sub('particles_roundtrip', execute, strategy=strategy, fixed=fixed, quick=480, thorough=8000, floor=100, quick_shards=16,
-        must_hit=('drive:list', 'drive:values', 'drive:gen', 'children', 'shared:operator', 'shared:operator_twice_in_one_list',
+    Sub('particles_roundtrip', execute, strategy=strategy, fixed=fixed_all, quick=480, thorough=8000, floor=100, quick_shards=16,
+        must_hit=('strlen:127-129', 'strlen:255-257', 'strlen:1023-1025', 'strlen:4095-4097', 'strlen:>65536',
+                  'strlen:system:name', 'strlen:operator:name', 'strlen:operator:function', 'strlen:operator:option_name',
+                  'strlen:operator:string_value', 'strlen:operator:string_array_item',
+                  'drive:list', 'drive:values', 'drive:gen', 'children', 'shared:operator', 'shared:operator_twice_in_one_list',
                   'shared:operator_across_systems', 'shared:child', 'array', 'name:mixed_case', 'system_options',
                   'file:sample.pcf', 'fmt:1', 'fmt:2')
         + tuple('cat:' + c for c in CATEGORIES) + tuple('type:' + t for t in ARRAY_TYPES)),
